@@ -29,69 +29,89 @@ fn owner_of(w: &World, f: u8, line: usize) -> Option<usize> {
     })
 }
 
-/// Cursor on the `def` line (and, for a multi-line signature, the parameter line) of chain link `k`.
-pub fn chain_cursor(order: &[u8], chain: &[u8], k: usize, multiline: bool, cols: [u32; 3]) {
+/// Which token of link k's definition line the (concrete) cursor sits on.
+#[derive(Clone, Copy, PartialEq)]
+pub enum At { Name, Param, ParamEither, ParamNextLine, Elsewhere }
+
+/// ONE position query on chain link `k` (a concrete query costs ~150 s of symbolic execution). The cursor column is
+/// concrete; the recorded spans it is compared with are symbolic: the parameter usage's (s, e) and the
+/// definition's name span (ds, de), any 0 <= s <= e <= 40.
+pub fn chain_cursor(order: &[u8], chain: &[u8], k: usize, at: At) {
+    let multiline = at == At::ParamNextLine;
     let w = chain_world(order, chain, if multiline { Some(k) } else { None });
     assume(w.layout_ok());
     let db = build(&w, WITH_USAGES);
-    let sel: u8 = any();
-    // `def f(f): return 1`: 0 'd', 3 ' ', 4 name, 5 '(', 6 parameter, 7 ')', 12 inside `return`, 40 beyond the line
-    match sel { 0 => chain_cursor_at(&w, &db, chain, k, multiline, cols[0]), 1 => chain_cursor_at(&w, &db, chain, k, multiline, cols[1]),
-                _ => chain_cursor_at(&w, &db, chain, k, multiline, cols[2]) }
-    reach!("c02.cursor.end");
-    std::mem::forget(db); std::mem::forget(w);
-}
-fn chain_cursor_at(w: &World, db: &FixtureDatabase, chain: &[u8], k: usize, multiline: bool, col: u32) {
     let f = chain[k];
     let p = Path::new(path(f));
     let d = &w.defs[k];
-    let c = col as usize;
-    let outward = spec::resolve(w, f, "f", Some(k)).map(|i| w.defs[i].line);
-    note!("link {} in {} line {} multiline={} col={} text={:?}", k, path(f), d.line, multiline, col, file_text(w, f));
-    // --- the def line: name span
-    let on_name = c >= NAME_START && c < NAME_START + 1;
-    let got = db.find_fixture_definition(p, (d.line - 1) as u32, col);
-    let either = db.find_fixture_or_definition_at_position(p, (d.line - 1) as u32, col);
-    let name = db.find_fixture_at_position(p, (d.line - 1) as u32, col);
     let has_param = !d.deps.is_empty();
-    let (pl, ps, pe) = if has_param { param_span(d, 0) } else { (0, 0, 0) };
-    let on_param_here = has_param && pl == d.line && c >= ps && c < pe;
-    if on_name {
-        check!("c02.name.goto_is_not_a_usage", got.is_none());
-        check!("c02.name.either_is_this_link", either.as_ref().map(|x| x.line) == Some(d.line));
-        check!("c02.name.name", name.as_deref() == Some("f"));
-    } else if on_param_here {
-        check!("c02.param.goes_outward", got.as_ref().map(|x| x.line) == outward);
-        check!("c02.param.never_self", got.as_ref().map(|x| x.line) != Some(d.line));
-        check!("c02.param.either_outward", either.as_ref().map(|x| x.line) == outward);
-    } else {
-        check!("c02.elsewhere.none", got.is_none() && either.is_none());
-    }
-    // --- multi-line signature: the parameter on the continuation line
-    if multiline && has_param {
-        let got2 = db.find_fixture_definition(p, (pl - 1) as u32, col);
-        let on_param = c >= ps && c < pe;
-        if on_param {
-            if crate::kf::C02_CONTINUATION_LINE_SELF {
-                check!("KF:c02.multiline.goes_outward", got2.as_ref().map(|x| x.line) == outward);
+    let (pl, ps, _pe) = if has_param { param_span(d, 0) } else { (0, 0, 0) };
+    let s: usize = any(); let e: usize = any();
+    assume(s <= e && e <= 40);
+    let outward = spec::resolve(&w, f, "f", Some(k)).map(|i| w.defs[i].line);
+    match at {
+        At::Param | At::ParamNextLine => {
+            // recorded span of the parameter usage made symbolic
+            { let mut us = db.usages.get_mut(p).unwrap(); for u in us.iter_mut() { if u.line == pl { u.start_char = s; u.end_char = e; } } }
+            let col = ps as u32;
+            note!("cursor on the parameter of link {} ({} line {}, col {}), recorded span {}..{}, text {:?}", k, path(f), pl, col, s, e, file_text(&w, f));
+            let got = db.find_fixture_definition(p, (pl - 1) as u32, col);
+            let inside = ps >= s && ps < e;
+            if multiline && crate::kf::C02_CONTINUATION_LINE_SELF {
+                check!("KF:c02.multiline.goes_outward", !inside || got.as_ref().map(|x| x.line) == outward);
             } else {
-                check!("c02.multiline.goes_outward", got2.as_ref().map(|x| x.line) == outward);
+                check!("c02.param.goes_outward", !inside || got.as_ref().map(|x| x.line) == outward);
+                check!("c02.param.never_self", got.as_ref().map(|x| x.line) != Some(d.line));
             }
-        } else {
-            check!("c02.multiline.elsewhere_none", got2.is_none());
+            check!("c02.param.outside_span_none", inside || got.is_none());
+            std::mem::forget(got);
         }
-        std::mem::forget(got2);
+        At::ParamEither => {
+            // the resolver used by go-to-implementation / prepareCallHierarchy must agree with navigation on the parameter
+            { let mut us = db.usages.get_mut(p).unwrap(); for u in us.iter_mut() { if u.line == pl { u.start_char = s; u.end_char = e; } } }
+            let col = ps as u32;
+            note!("(implementation / call hierarchy) cursor on the parameter of link {} ({} line {}, col {}), recorded span {}..{}", k, path(f), pl, col, s, e);
+            let either = db.find_fixture_or_definition_at_position(p, (pl - 1) as u32, col);
+            let inside = ps >= s && ps < e;
+            check!("c02.param.either_goes_outward", !inside || either.as_ref().map(|x| x.line) == outward);
+            check!("c02.param.either_never_self", !inside || either.as_ref().map(|x| x.line) != Some(d.line));
+            std::mem::forget(either);
+        }
+        At::Name => {
+            // recorded name span of the definition made symbolic
+            { let mut ds = db.definitions.get_mut("f").unwrap(); for x in ds.iter_mut() { if x.line == d.line { x.start_char = s; x.end_char = e; } } }
+            let col = NAME_START as u32;
+            note!("cursor on the name of link {} ({} line {}, col {}), recorded name span {}..{}", k, path(f), d.line, col, s, e);
+            let either = db.find_fixture_or_definition_at_position(p, (d.line - 1) as u32, col);
+            let inside = NAME_START >= s && NAME_START < e;
+            check!("c02.name.either_is_this_link", !inside || either.as_ref().map(|x| x.line) == Some(d.line));
+            check!("c02.name.outside_span_none", inside || either.is_none());
+            std::mem::forget(either);
+        }
+        At::Elsewhere => {
+            let col = 12u32; // inside `return`
+            note!("cursor elsewhere on link {} ({} line {}, col {})", k, path(f), d.line, col);
+            let either = db.find_fixture_or_definition_at_position(p, (d.line - 1) as u32, col);
+            check!("c02.elsewhere.none", either.is_none());
+            std::mem::forget(either);
+        }
     }
-    std::mem::forget(got); std::mem::forget(either); std::mem::forget(name);
+    reach!("c02.cursor.end");
+    std::mem::forget(db); std::mem::forget(w);
 }
 
-/// References of every chain link == exactly the usages that bind to it (spec), no duplicates; and the
-/// tests in U / T2 bind to the innermost visible link.
-pub fn chain_refs(order: &[u8], chain: &[u8]) {
-    let w = chain_world(order, chain, None);
+/// References of chain link `k` == exactly the usages that bind to it (reference model), no duplicates.
+/// Definition lines are symbolic here (no position query, so no text is needed).
+pub fn chain_refs(order: &[u8], chain: &[u8], k: usize) {
+    let mut w = chain_world(order, chain, None);
+    w.with_text = false;
+    // symbolic definition lines (ascending along the chain, >= 4, gaps for the decorator lines)
+    let mut prev = 2usize;
+    for i in 0..w.defs.len() { let l: usize = any(); assume(l > prev + 1 && l < 40 + 10 * i); w.defs[i].line = l; prev = l; }
+    let tl: usize = any(); assume(tl > prev + 1 && tl < 100);
+    for t in w.tests.iter_mut() { t.line = tl; }
     assume(w.layout_ok());
     let db = build(&w, WITH_USAGES);
-    // all usages of the world with their spec binding
     let mut uses: Vec<(u8, usize, usize, Option<usize>)> = Vec::with_capacity(8); // file, line, start, binds-to
     for &f in &w.order {
         for u in usages_of_file(&w, f) {
@@ -99,33 +119,23 @@ pub fn chain_refs(order: &[u8], chain: &[u8]) {
             uses.push((f, u.line, u.start_char, spec::resolve(&w, f, "f", own)));
         }
     }
-    note!("chain {:?} order {:?} uses {:?}", chain, order, uses);
-    for k in 0..chain.len() {
-        let d = mk_def(&w.defs[k]);
-        let refs = db.find_references_for_definition(&d);
-        let want: Vec<(u8, usize, usize)> = uses.iter().filter(|u| u.3 == Some(k)).map(|u| (u.0, u.1, u.2)).collect();
-        check!("c02.refs.count", refs.len() == want.len());
-        for r in refs.iter() {
-            let id = (file_of(&r.file_path), r.line, r.start_char);
-            check!("c02.refs.member", want.contains(&id));
-        }
-        for (a, ra) in refs.iter().enumerate() {
-            for rb in refs.iter().skip(a + 1) {
-                check!("c02.refs.no_duplicate", !(ra.line == rb.line && ra.start_char == rb.start_char && file_of(&ra.file_path) == file_of(&rb.file_path)));
-            }
-        }
-        std::mem::forget(refs); std::mem::forget(d);
+    note!("chain {:?} order {:?} lines {:?} uses {:?}", chain, order, w.defs.iter().map(|d| d.line).collect::<Vec<_>>(), uses);
+    let d = mk_def(&w.defs[k]);
+    let refs = db.find_references_for_definition(&d);
+    note!("refs(link {}) = {:?}", k, refs.iter().map(|r| (file_of(&r.file_path), r.line, r.start_char)).collect::<Vec<_>>());
+    let want: Vec<(u8, usize, usize)> = uses.iter().filter(|u| u.3 == Some(k)).map(|u| (u.0, u.1, u.2)).collect();
+    check!("c02.refs.count", refs.len() == want.len());
+    for r in refs.iter() {
+        let id = (file_of(&r.file_path), r.line, r.start_char);
+        check!("c02.refs.member", want.contains(&id));
     }
-    // tests bind to the innermost visible link
-    for &tf in &[U, T2] {
-        if !w.has_file(tf) { continue; }
-        let got = db.find_fixture_definition(Path::new(path(tf)), 13, 11);
-        let want = spec::resolve(&w, tf, "f", None).map(|i| w.defs[i].line);
-        check!("c02.test.binds_innermost", got.as_ref().map(|x| x.line) == want);
-        std::mem::forget(got);
+    for (a, ra) in refs.iter().enumerate() {
+        for rb in refs.iter().skip(a + 1) {
+            check!("c02.refs.no_duplicate", !(ra.line == rb.line && ra.start_char == rb.start_char && file_of(&ra.file_path) == file_of(&rb.file_path)));
+        }
     }
     reach!("c02.refs.end");
-    std::mem::forget(db); std::mem::forget(w);
+    std::mem::forget(refs); std::mem::forget(d); std::mem::forget(db); std::mem::forget(w);
 }
 
 macro_rules! c02_arm {
@@ -140,58 +150,64 @@ macro_rules! c02_arm {
     };
 }
 
-/// @harness id=c02_cur_near_over_root props=C02 unwind=30 mem=8 cap=900 gates=worlds
-/// chain C1:`def f(f)` over C0:`def f()`; cursor on C1's def line: columns 4 (function name), 6 (parameter), 12 (elsewhere) — symbolic selector, 3 call sites.
-c02_arm!(c02_cur_near_over_root, chain_cursor(&[C0, C1, U], &[C1, C0], 0, false, [4, 6, 12]));
-/// @harness id=c02_cur_near_over_root_edges props=C02 tier=thorough unwind=30 mem=10 cap=1500 gates=worlds
-/// chain C1:`def f(f)` over C0:`def f()`; cursor on C1's def line: columns 5 '(' , 7 ')' and 3 (the space before the name).
-c02_arm!(c02_cur_near_over_root_edges, chain_cursor(&[C0, C1, U], &[C1, C0], 0, false, [5, 7, 3]));
+/// @harness id=c02_near_over_root_param props=C02,C05 tier=quick unwind=30 mem=8 cap=900 gates=worlds
+/// chain C1:`def f(f)` over C0:`def f()`, link C1: cursor on the same-named parameter, recorded parameter span symbolic: goes to the next definition outward, never to itself.
+c02_arm!(c02_near_over_root_param, chain_cursor(&[C0, C1, U], &[C1, C0], 0, At::Param));
+/// @harness id=c02_near_over_root_name props=C02,C05 tier=quick unwind=30 mem=8 cap=900 gates=worlds
+/// chain C1:`def f(f)` over C0:`def f()`, link C1: cursor on the function name, recorded name span symbolic: the overriding fixture itself.
+c02_arm!(c02_near_over_root_name, chain_cursor(&[C0, C1, U], &[C1, C0], 0, At::Name));
 
-/// @harness id=c02_cur_same_over_near_over_root props=C02 unwind=30 mem=8 cap=900 gates=worlds
-/// chain U over C1 over C0 (registered outermost first); cursor on U's def line: columns 4 (function name), 6 (parameter), 12 (elsewhere) — symbolic selector, 3 call sites.
-c02_arm!(c02_cur_same_over_near_over_root, chain_cursor(&[C0, C1, U], &[U, C1, C0], 0, false, [4, 6, 12]));
-/// @harness id=c02_cur_same_over_near_over_root_edges props=C02 tier=thorough unwind=30 mem=10 cap=1500 gates=worlds
-/// chain U over C1 over C0 (registered outermost first); cursor on U's def line: columns 5 '(' , 7 ')' and 3 (the space before the name).
-c02_arm!(c02_cur_same_over_near_over_root_edges, chain_cursor(&[C0, C1, U], &[U, C1, C0], 0, false, [5, 7, 3]));
+/// @harness id=c02_same_over_near_over_root_param props=C02,C05 tier=quick unwind=30 mem=8 cap=900 gates=worlds
+/// chain U over C1 over C0 (registered outermost first), link U: cursor on the same-named parameter, recorded parameter span symbolic: goes to the next definition outward, never to itself.
+c02_arm!(c02_same_over_near_over_root_param, chain_cursor(&[C0, C1, U], &[U, C1, C0], 0, At::Param));
+/// @harness id=c02_same_over_near_over_root_name props=C02,C05 tier=thorough unwind=30 mem=8 cap=900 gates=worlds
+/// chain U over C1 over C0 (registered outermost first), link U: cursor on the function name, recorded name span symbolic: the overriding fixture itself.
+c02_arm!(c02_same_over_near_over_root_name, chain_cursor(&[C0, C1, U], &[U, C1, C0], 0, At::Name));
 
-/// @harness id=c02_cur_middle_link props=C02 unwind=30 mem=8 cap=900 gates=worlds
-/// chain U over C1 over C0 (registered innermost first); cursor on the middle link C1: columns 4 (function name), 6 (parameter), 12 (elsewhere) — symbolic selector, 3 call sites.
-c02_arm!(c02_cur_middle_link, chain_cursor(&[U, C1, C0], &[U, C1, C0], 1, false, [4, 6, 12]));
-/// @harness id=c02_cur_middle_link_edges props=C02 tier=thorough unwind=30 mem=10 cap=1500 gates=worlds
-/// chain U over C1 over C0 (registered innermost first); cursor on the middle link C1: columns 5 '(' , 7 ')' and 3 (the space before the name).
-c02_arm!(c02_cur_middle_link_edges, chain_cursor(&[U, C1, C0], &[U, C1, C0], 1, false, [5, 7, 3]));
+/// @harness id=c02_middle_link_param props=C02,C05 tier=quick unwind=30 mem=8 cap=900 gates=worlds
+/// chain U over C1 over C0 (registered innermost first), middle link C1: cursor on the same-named parameter, recorded parameter span symbolic: goes to the next definition outward, never to itself.
+c02_arm!(c02_middle_link_param, chain_cursor(&[U, C1, C0], &[U, C1, C0], 1, At::Param));
+/// @harness id=c02_middle_link_name props=C02,C05 tier=thorough unwind=30 mem=8 cap=900 gates=worlds
+/// chain U over C1 over C0 (registered innermost first), middle link C1: cursor on the function name, recorded name span symbolic: the overriding fixture itself.
+c02_arm!(c02_middle_link_name, chain_cursor(&[U, C1, C0], &[U, C1, C0], 1, At::Name));
 
-/// @harness id=c02_cur_root_over_plugin props=C02 unwind=30 mem=8 cap=900 gates=worlds
-/// chain C0 over plugin P over third-party V; cursor on C0's def line: columns 4 (function name), 6 (parameter), 12 (elsewhere) — symbolic selector, 3 call sites.
-c02_arm!(c02_cur_root_over_plugin, chain_cursor(&[V, P, C0, U], &[C0, P, V], 0, false, [4, 6, 12]));
-/// @harness id=c02_cur_root_over_plugin_edges props=C02 tier=thorough unwind=30 mem=10 cap=1500 gates=worlds
-/// chain C0 over plugin P over third-party V; cursor on C0's def line: columns 5 '(' , 7 ')' and 3 (the space before the name).
-c02_arm!(c02_cur_root_over_plugin_edges, chain_cursor(&[V, P, C0, U], &[C0, P, V], 0, false, [5, 7, 3]));
+/// @harness id=c02_root_over_plugin_param props=C02,C05 tier=thorough unwind=30 mem=8 cap=900 gates=worlds
+/// chain C0 over plugin P over third-party V, link C0: cursor on the same-named parameter, recorded parameter span symbolic: goes to the next definition outward, never to itself.
+c02_arm!(c02_root_over_plugin_param, chain_cursor(&[V, P, C0, U], &[C0, P, V], 0, At::Param));
+/// @harness id=c02_root_over_plugin_name props=C02,C05 tier=thorough unwind=30 mem=8 cap=900 gates=worlds
+/// chain C0 over plugin P over third-party V, link C0: cursor on the function name, recorded name span symbolic: the overriding fixture itself.
+c02_arm!(c02_root_over_plugin_name, chain_cursor(&[V, P, C0, U], &[C0, P, V], 0, At::Name));
 
-/// @harness id=c02_cur_plugin_over_third props=C02 unwind=30 mem=8 cap=900 gates=worlds
-/// chain P over V; cursor on the plugin's def line: columns 4 (function name), 6 (parameter), 12 (elsewhere) — symbolic selector, 3 call sites.
-c02_arm!(c02_cur_plugin_over_third, chain_cursor(&[V, P, U], &[P, V], 0, false, [4, 6, 12]));
-/// @harness id=c02_cur_plugin_over_third_edges props=C02 tier=thorough unwind=30 mem=10 cap=1500 gates=worlds
-/// chain P over V; cursor on the plugin's def line: columns 5 '(' , 7 ')' and 3 (the space before the name).
-c02_arm!(c02_cur_plugin_over_third_edges, chain_cursor(&[V, P, U], &[P, V], 0, false, [5, 7, 3]));
+/// @harness id=c02_plugin_over_third_param props=C02,C05 tier=quick unwind=30 mem=8 cap=900 gates=worlds
+/// chain P over V, the plugin link: cursor on the same-named parameter, recorded parameter span symbolic: goes to the next definition outward, never to itself.
+c02_arm!(c02_plugin_over_third_param, chain_cursor(&[V, P, U], &[P, V], 0, At::Param));
+/// @harness id=c02_plugin_over_third_name props=C02,C05 tier=thorough unwind=30 mem=8 cap=900 gates=worlds
+/// chain P over V, the plugin link: cursor on the function name, recorded name span symbolic: the overriding fixture itself.
+c02_arm!(c02_plugin_over_third_name, chain_cursor(&[V, P, U], &[P, V], 0, At::Name));
 
-/// @harness id=c02_cur_outermost props=C02 unwind=30 mem=8 cap=900 gates=worlds
-/// chain C1 over C0; cursor on the outermost link (no parameter): name => itself, elsewhere nothing: columns 4 (function name), 6 (parameter), 12 (elsewhere) — symbolic selector, 3 call sites.
-c02_arm!(c02_cur_outermost, chain_cursor(&[C1, C0, U], &[C1, C0], 1, false, [4, 6, 12]));
-/// @harness id=c02_cur_outermost_edges props=C02 tier=thorough unwind=30 mem=10 cap=1500 gates=worlds
-/// chain C1 over C0; cursor on the outermost link (no parameter): name => itself, elsewhere nothing: columns 5 '(' , 7 ')' and 3 (the space before the name).
-c02_arm!(c02_cur_outermost_edges, chain_cursor(&[C1, C0, U], &[C1, C0], 1, false, [5, 7, 3]));
-
-/// @harness id=c02_cur_multiline props=C02 unwind=30 mem=8 cap=900 gates=worlds
-/// chain C1 over C0 with C1's parameter on the line after `def f(`: cursor on both lines: columns 4 (function name), 6 (parameter), 12 (elsewhere) — symbolic selector, 3 call sites.
-c02_arm!(c02_cur_multiline, chain_cursor(&[C0, C1, U], &[C1, C0], 0, true, [4, 6, 12]));
-/// @harness id=c02_cur_multiline_edges props=C02 tier=thorough unwind=30 mem=10 cap=1500 gates=worlds
-/// chain C1 over C0 with C1's parameter on the line after `def f(`: cursor on both lines: columns 5 '(' , 7 ')' and 3 (the space before the name).
-c02_arm!(c02_cur_multiline_edges, chain_cursor(&[C0, C1, U], &[C1, C0], 0, true, [5, 7, 3]));
-
-/// @harness id=c02_refs_three_links props=C02,C04 unwind=30 mem=10 cap=1200 gates=worlds
-/// chain U over C1 over C0, tests in U and in T2 (sibling directory): references of each link, test binding.
-c02_arm!(c02_refs_three_links, chain_refs(&[C0, C1, U, T2], &[U, C1, C0]));
-/// @harness id=c02_refs_near_over_third props=C02,C04 unwind=30 mem=10 cap=1200 gates=worlds
-/// chain C1 over V, tests in U and T2: T2's test binds to V.
-c02_arm!(c02_refs_near_over_third, chain_refs(&[V, C1, U, T2], &[C1, V]));
+/// @harness id=c02_near_over_root_param_either props=C02,C05 unwind=30 mem=8 cap=900 gates=worlds
+/// chain C1 over C0: the resolver behind go-to-implementation / call hierarchy, cursor on the same-named parameter:
+/// must describe the parent, like navigation does.
+c02_arm!(c02_near_over_root_param_either, chain_cursor(&[C0, C1, U], &[C1, C0], 0, At::ParamEither));
+/// @harness id=c02_near_over_root_elsewhere props=C02 tier=thorough unwind=30 mem=8 cap=900 gates=worlds
+/// chain C1 over C0: cursor inside `return` on the def line: nothing.
+c02_arm!(c02_near_over_root_elsewhere, chain_cursor(&[C0, C1, U], &[C1, C0], 0, At::Elsewhere));
+/// @harness id=c02_outermost_name props=C02 tier=thorough unwind=30 mem=8 cap=900 gates=worlds
+/// chain C1 over C0: cursor on the name of the outermost link (no parameter): itself.
+c02_arm!(c02_outermost_name, chain_cursor(&[C1, C0, U], &[C1, C0], 1, At::Name));
+/// @harness id=c02_multiline_param props=C02 unwind=30 mem=8 cap=900 gates=worlds
+/// chain C1 over C0 with C1's parameter on the line after `def f(`: cursor on that parameter.
+c02_arm!(c02_multiline_param, chain_cursor(&[C0, C1, U], &[C1, C0], 0, At::ParamNextLine));
+/// @harness id=c02_refs_innermost props=C02,C04,C12 unwind=24 mem=10 cap=1200
+/// chain U over C1 over C0, tests in U and in T2 (sibling directory): references of the innermost link U
+/// (only U's test), symbolic lines.
+c02_arm!(c02_refs_innermost, chain_refs(&[C0, C1, U, T2], &[U, C1, C0], 0));
+/// @harness id=c02_refs_middle props=C02,C04 unwind=24 mem=10 cap=1200
+/// same chain: references of the middle link C1 = U's own same-named parameter.
+c02_arm!(c02_refs_middle, chain_refs(&[C0, C1, U, T2], &[U, C1, C0], 1));
+/// @harness id=c02_refs_outermost props=C02,C04 unwind=24 mem=10 cap=1200
+/// same chain: references of the outermost link C0 = C1's parameter and T2's test.
+c02_arm!(c02_refs_outermost, chain_refs(&[C0, C1, U, T2], &[U, C1, C0], 2));
+/// @harness id=c02_refs_third_party_parent props=C02,C04 tier=thorough unwind=24 mem=10 cap=1200
+/// chain C1 over V, tests in U and T2: references of V = C1's parameter and T2's test.
+c02_arm!(c02_refs_third_party_parent, chain_refs(&[V, C1, U, T2], &[C1, V], 1));
